@@ -233,7 +233,15 @@ def bounded(tier, seed):
         f = split_case(sig)
         if f:
             return n, f, {'signature': sig}
-    for _ in range(4000 if tier == 'thorough' else 800):
+    # the limits of the grammar: 32 levels of struct / array / dict-entry nesting, signatures of 255 characters
+    limits = ['(' * 32 + 'i' + ')' * 32, 'a' * 32 + 'i', 'a{s' * 32 + 'v' + '}' * 32, '(' * 31 + 'i' + ')' * 31, 'a(' * 16 + 'y' + ')' * 16,
+              '(' * 32 + 'ii' + ')' * 32 + 'i', 'i' * 255, 'ai' * 127 + 'y', '(' + 'i' * 253 + ')', 'a{s(' + 'i' * 248 + ')}', '(i)' * 85, 'v' * 255]
+    for sig in limits:
+        n += 1
+        f = split_case(sig)
+        if f:
+            return n, f, {'signature': sig}
+    for _ in range(20000 if tier == 'thorough' else 800):
         sig = random_deep(rnd)
         if not W.valid(sig):
             continue
@@ -258,6 +266,12 @@ def bounded(tier, seed):
     fixed_cases = [[1, marshal.Int64(2**40)], {'a': 1, 'b': marshal.UInt64(2**64 - 1)}, {'k0': -1, 'k1': True}, [marshal.Byte(1), 300],
                    {'a': 'x', 'b': marshal.ObjectPath('/p')}, [5, True], [True, 5], ['a', marshal.ObjectPath('/b')], {'k0': 2**31 - 1, 'k1': marshal.Int64(-2**63)},
                    {marshal.ObjectPath('/a'): 1}, {marshal.Signature('i'): 's'}, {marshal.Byte(1): 'x'}, {marshal.UInt32(7): [1, 2]}, [{marshal.ObjectPath('/a'): 'v'}], (1, 'a'), (1, 2), ((1, 'a'), (1, 2))]
+    # values whose inferred signature is long (128 .. 255 characters) or nests to the limit
+    wide = tuple(range(130))
+    deep = 7
+    for _ in range(31):
+        deep = (deep,)
+    fixed_cases += [wide, tuple(['s'] * 253), [tuple([1, 's', 2.5, True] * 40)], {'k': tuple(range(200))}, deep]
     # one container object reachable twice inside a value is an ordinary finite value
     row, pair, ent = [1, 2, 3], (1, 'a'), {'k': [1]}
     fixed_cases += [(row, row), [row, row], {'a': row, 'b': row}, (pair, pair), [pair, pair], [ent, ent], (row, [row, row]), {'x': (row, row)}]
@@ -266,7 +280,7 @@ def bounded(tier, seed):
         f = infer_case(v, True)
         if f:
             return n, f, {'value': repr(v)}
-    for _ in range(6000 if tier == 'thorough' else 1500):
+    for _ in range(40000 if tier == 'thorough' else 1500):
         v, within = gen_py(rnd)
         n += 1
         f = infer_case(v, within)
@@ -283,7 +297,7 @@ def replay(function, clause, model):
 def run_bounded(tier, seed):
     n, f, inp = bounded(tier, seed)
     return {'tool': 'enumeration against the reference type grammar (contracts/wire_ref.py) and variant round trips on the real code',
-            'bound': 'every valid signature of total length <= %d over all 14 type codes + containers; %d random nested signatures up to 255 bytes; interface argument counts on sampled pairs; %d generated Python values (bool/int/float/str/bytearray/wrappers, homogeneous and heterogeneous lists, tuples, dicts, depth <= 3) through sigFromPy and a variant round trip at 2 offsets x 2 byte orders' % (6 if tier == 'thorough' else 5, 4000 if tier == 'thorough' else 800, 6000 if tier == 'thorough' else 1500),
+            'bound': 'every valid signature of total length <= %d over all 14 type codes + containers; %d random nested signatures up to 255 bytes; interface argument counts on sampled pairs; %d generated Python values (bool/int/float/str/bytearray/wrappers, homogeneous and heterogeneous lists, tuples, dicts, depth <= 3) through sigFromPy and a variant round trip at 2 offsets x 2 byte orders' % (6 if tier == 'thorough' else 5, 20000 if tier == 'thorough' else 800, 40000 if tier == 'thorough' else 1500),
             'evaluations': n, 'failures': [] if not f else [{'function': 'txdbus.marshal.genCompleteTypes / sigFromPy', 'clause': 'grammar', 'input': inp, 'detail': f}]}
 
 
